@@ -648,6 +648,8 @@ struct SrvEngine : public Engine
          PathMatcher pm; bool okf;
          for (std::map<std::string, Sub>::const_iterator it = c.subs.begin(); it != c.subs.end(); ++it) {String q = MS(it->second.pattern); pm.AdjustStringPrefix(q, "*/*"); (void) pm.PutPathString(q, mkFilter(it->second.filter, okf));}
          for (std::map<std::string,std::string>::iterator it = c.mirror.begin(); it != c.mirror.end(); ) {const Message * pay = c.mirrorMsg[it->first](); if (!pm.MatchesPath(it->first.c_str(), pay, NULL)) {c.idx.erase(it->first); c.mirrorMsg.erase(it->first); c.mirror.erase(it++);} else ++it;}
+         // the same for replicated indices of nodes whose data the client does not hold (e.g. an intermediate node): what no remaining subscription matches is dropped
+         for (std::map<std::string, std::vector<std::string> >::iterator it = c.idx.begin(); it != c.idx.end(); ) {if ((c.mirror.count(it->first) == 0)&&(!pm.MatchesPath(it->first.c_str(), NULL, NULL))) c.idx.erase(it++); else ++it;}
       }
       else if ((op == "param")&&(t.size() >= 3))
       {
